@@ -15,7 +15,7 @@ typedef std::vector<Unit> Units;
 #define NK_DECL(P) void i8_register_##P(Units& quick, Units& thorough);
 NK_I8_PARTS(NK_DECL)
 #undef NK_DECL
-void w16_case(); void w32_case(); void w64_case();
+void w16s_case(); void w16u_case(); void w32s_case(); void w32u_case(); void w64s_case(); void w64u_case(); void w64ll_case();
 void float_case_f(); void float_case_d(); void float_case_l();
 void gmp_case();
 
@@ -49,6 +49,136 @@ template <typename T> inline std::vector<unsigned> biased_exps(int n) {
     v.push_back(e); }
   return v;
 }
+
+// ---- floating point operands, composed from bit fields (never from FPU arithmetic); read back through volatile
+template <typename F> struct FBits;
+template <> struct FBits<float> { enum { EB = 8, MB = 23, BIAS = 127 }; static float make(bool neg, unsigned e, uint64_t m) { uint32_t b = ((uint32_t) neg << 31) | ((e & 0xffu) << 23) | (uint32_t) (m & 0x7fffffu); float f; memcpy(&f, &b, 4); return f; } };
+template <> struct FBits<double> { enum { EB = 11, MB = 52, BIAS = 1023 }; static double make(bool neg, unsigned e, uint64_t m) { uint64_t b = ((uint64_t) neg << 63) | ((uint64_t) (e & 0x7ffu) << 52) | (m & 0xfffffffffffffULL); double f; memcpy(&f, &b, 8); return f; } };
+template <> struct FBits<long double> { enum { EB = 15, MB = 63, BIAS = 16383 };   // x87: explicit integer bit; only valid encodings are produced
+  static long double make(bool neg, unsigned e, uint64_t m) { e &= 0x7fffu; m &= 0x7fffffffffffffffULL; uint64_t mant = (e == 0) ? m : (m | 0x8000000000000000ULL); if (e == 0x7fff && m != 0) mant |= 0xC000000000000000ULL;
+    unsigned char raw[16]; memset(raw, 0, 16); uint16_t se = (uint16_t) (((unsigned) neg << 15) | e); memcpy(raw, &mant, 8); memcpy(raw + 8, &se, 2); long double f; memcpy(&f, raw, sizeof f); return f; } };
+// value 2^k (k may be outside the normal range -> denormal or infinity)
+template <typename F> inline F f_pow2(int k, bool neg, int ulps) {
+  typedef FBits<F> B; int emax = (1 << B::EB) - 1; long be = (long) k + B::BIAS; uint64_t m = 0; unsigned e;
+  if (be >= emax) { e = (unsigned) emax; m = 0; }
+  else if (be <= 0) { e = 0; long sh = (long) B::MB - 1 + be; m = sh >= 0 ? (1ULL << sh) : 0; }
+  else e = (unsigned) be;
+  // step `ulps` representable neighbours up or down in magnitude (on the bit pattern)
+  if (e != (unsigned) emax) { __int128 v = ((__int128) e << B::MB) | m; v += ulps; if (v < 0) v = 0; __int128 top = ((__int128) emax << B::MB); if (v > top) v = top; e = (unsigned) (v >> B::MB); m = (uint64_t) (v & (((__int128) 1 << B::MB) - 1)); }
+  return B::make(neg, e, m);
+}
+template <typename F> inline F biased_flt(bool specials = true) {
+  typedef FBits<F> B; const int emax = (1 << B::EB) - 1; const uint64_t mmask = (B::MB == 63) ? 0x7fffffffffffffffULL : ((1ULL << B::MB) - 1);
+  int k = hx::rnd(0, 99); bool neg = hx::coin(); F v;
+  if (k < 5) v = B::make(neg, 0, 0);                                                          // +-0
+  else if (k < 12) v = B::make(neg, 0, (uint64_t) hx::rnd(1, 5) | (hx::coin(30) ? (hx::rng()() & mmask) : 0));   // denormals
+  else if (k < 16) v = B::make(neg, 1, (uint64_t) hx::rnd(0, 3));                                // smallest normals
+  else if (k < 22) v = B::make(neg, (unsigned) emax - 1, mmask - (uint64_t) hx::rnd(0, 3));        // largest finite
+  else if (k < 26) v = specials ? B::make(neg, (unsigned) emax, 0) : B::make(neg, B::BIAS, 0);     // infinities
+  else if (k < 29) v = specials ? B::make(neg, (unsigned) emax, 1ULL << (B::MB - 1)) : B::make(neg, B::BIAS + 1, 0);   // quiet NaN
+  else if (k < 45) { static const int IL[] = { 7, 8, 15, 16, 31, 32, 63, 64, 0, 1, 24, 53, 127, 128 }; v = f_pow2<F>(IL[hx::rnd(0, 13)], neg, hx::rnd(-2, 2)); }   // integer-type limits and neighbours
+  else if (k < 55) v = f_pow2<F>(hx::rnd(-(int) B::BIAS - (int) B::MB, (int) B::BIAS + 1), neg, hx::rnd(-1, 1));                                     // any power of two +- 1ulp
+  else if (k < 65) { int iv = hx::rnd(0, 300); uint64_t frac = hx::coin() ? (1ULL << (B::MB - 1)) : (hx::coin() ? 1 : mmask);   // small integers +- .5 / tiny
+    int lz = 0; while ((iv >> lz) > 1) ++lz; if (iv == 0) v = B::make(neg, B::BIAS - 1, frac); else { uint64_t m = (((uint64_t) iv << (B::MB - lz)) & mmask) | (hx::coin() ? (frac >> (lz + 1)) : 0); v = B::make(neg, (unsigned) (B::BIAS + lz), m); } }
+  else if (k < 88) v = B::make(neg, (unsigned) (B::BIAS + hx::rnd(-40, 40)), hx::rng()() & mmask & (hx::coin(30) ? ~0xfffULL : ~0ULL));         // random mantissa, moderate exponent
+  else v = B::make(neg, (unsigned) hx::rnd(1, emax - 1), hx::rng()() & mmask);                                                                // random everything
+  volatile F vv = v; return vv;
+}
+template <typename N> inline typename std::enable_if<IsFlt<typename Kind<N>::raw_t>::value, std::vector<N> >::type biased(int n) {
+  typedef typename Kind<N>::raw_t T; std::vector<N> v; for (int i = 0; i < n; ++i) { N x = fresh<N>(); Kind<N>::rv(x) = biased_flt<T>(); v.push_back(x); } return v; }
+template <typename N> inline typename std::enable_if<IsInt<typename Kind<N>::raw_t>::value, std::vector<N> >::type biased(int n) { return biased_ints<N>(n); }
+inline Z biased_Z() {
+  int k = hx::rnd(0, 99); Z z;
+  if (k < 10) z = hx::rnd(-2, 2);
+  else if (k < 45) { static const int IL[] = { 7, 8, 15, 16, 31, 32, 63, 64, 24, 53, 127, 128, 1024, 16384 }; z = 1; mpz_mul_2exp(z.get_mpz_t(), z.get_mpz_t(), (unsigned long) IL[hx::rnd(0, 13)]); z += hx::rnd(-3, 3); if (hx::coin()) z = -z; }
+  else if (k < 60) { z = 1; mpz_mul_2exp(z.get_mpz_t(), z.get_mpz_t(), (unsigned long) hx::rnd(1, 200)); z += hx::rnd(-2, 2); if (hx::coin()) z = -z; }
+  else if (k < 75) z = hx::rnd(-1000, 1000);
+  else { int limbs = hx::rnd(1, 4); z = 0; for (int i = 0; i < limbs; ++i) { z <<= 64; z += Z((unsigned long) hx::rng()()); } z >>= hx::rnd(0, 63); if (hx::coin()) z = -z; }
+  return z;
+}
+inline Q biased_Q() {
+  int k = hx::rnd(0, 99); Q q;
+  if (k < 25) q = Q(biased_Z());
+  else if (k < 50) { Z d; static const int DL[] = { 2, 3, 4, 5, 7, 10, 16, 1000 }; d = DL[hx::rnd(0, 7)]; q = Q(biased_Z() * d + hx::rnd(-(int) 3, 3), d); }   // integer limits +- small fraction
+  else if (k < 65) { Z d(1); mpz_mul_2exp(d.get_mpz_t(), d.get_mpz_t(), (unsigned long) hx::rnd(1, 1100)); q = Q(biased_Z(), d); }                               // dyadic, possibly tiny
+  else if (k < 80) q = Q(Z(hx::rnd(-2000, 2000)), Z(hx::rnd(1, 1000)));
+  else { Z d = abs(biased_Z()) + 1; q = Q(biased_Z(), d); }
+  q.canonicalize(); return q;
+}
+// GMP kinds: finite values; the checked kinds with extended policies additionally get the special values
+template <typename N> inline typename std::enable_if<std::is_same<typename Kind<N>::raw_t, Z>::value, std::vector<N> >::type biased(int n) {
+  typedef typename Kind<N>::TP P; std::vector<N> v;
+  for (int i = 0; i < n; ++i) { N x = fresh<N>(); int k = hx::rnd(0, 99);
+    if (Kind<N>::checked && P::has_infinity && k < 2) assign_r(x, PLUS_INFINITY, ROUND_IGNORE); else if (Kind<N>::checked && P::has_infinity && k < 4) assign_r(x, MINUS_INFINITY, ROUND_IGNORE); else if (Kind<N>::checked && P::has_nan && k < 6) assign_r(x, NOT_A_NUMBER, ROUND_IGNORE); else Kind<N>::rv(x) = biased_Z();
+    v.push_back(x); }
+  return v; }
+template <typename N> inline typename std::enable_if<std::is_same<typename Kind<N>::raw_t, Q>::value, std::vector<N> >::type biased(int n) {
+  typedef typename Kind<N>::TP P; std::vector<N> v;
+  for (int i = 0; i < n; ++i) { N x = fresh<N>(); int k = hx::rnd(0, 99);
+    if (Kind<N>::checked && P::has_infinity && k < 2) assign_r(x, PLUS_INFINITY, ROUND_IGNORE); else if (Kind<N>::checked && P::has_infinity && k < 4) assign_r(x, MINUS_INFINITY, ROUND_IGNORE); else if (Kind<N>::checked && P::has_nan && k < 6) assign_r(x, NOT_A_NUMBER, ROUND_IGNORE); else Kind<N>::rv(x) = biased_Q();
+    v.push_back(x); }
+  return v; }
+
+// ---------------------------------------------------------------- one random case on a kind N (profiles wide, float, gmp)
+template <typename N> struct KindCase {
+  typedef typename Kind<N>::raw_t T;
+  static void binary(int which, int nx, int ny) {
+    std::vector<N> xs = biased<N>(nx), ys = biased<N>(ny);
+    if (hx::coin(20)) ys = xs;      // equal / related operands
+    switch (which) {
+    case 0: run_binary<N, Op_add>(xs, ys); break; case 1: run_binary<N, Op_sub>(xs, ys); break; case 2: run_binary<N, Op_mul>(xs, ys); break; case 3: run_binary<N, Op_div>(xs, ys); break;
+    case 4: run_binary<N, Op_idiv>(xs, ys); break; case 5: run_binary<N, Op_rem>(xs, ys); break;
+    case 6: gcdlcm(xs, ys, true); break; default: gcdlcm(xs, ys, false); break; }
+  }
+  template <typename U = T> static typename std::enable_if<IsFlt<U>::value || std::is_same<U, Q>::value>::type gcdlcm(const std::vector<N>& xs, const std::vector<N>& ys, bool) { run_binary<N, Op_add>(xs, ys); }   // gcd/lcm are integer operations
+  template <typename U = T> static typename std::enable_if<!(IsFlt<U>::value || std::is_same<U, Q>::value)>::type gcdlcm(const std::vector<N>& xs, const std::vector<N>& ys, bool g) { if (g) run_binary<N, Op_gcd>(xs, ys); else run_binary<N, Op_lcm>(xs, ys); }
+  static void unary(int n) {
+    std::vector<N> xs = biased<N>(n);
+    run_unary<N, Op_assign>(xs); run_unary<N, Op_neg>(xs); run_unary<N, Op_abs>(xs); run_unary<N, Op_floor>(xs); run_unary<N, Op_ceil>(xs); run_unary<N, Op_trunc>(xs); run_unary<N, Op_sqrt>(xs);
+    run_specials<N>();
+  }
+  static void twoexp(int which, int n, int ne) {
+    std::vector<N> xs = biased<N>(n); std::vector<unsigned> ex = biased_exps<T>(ne);
+    switch (which) { case 0: run_2exp<N, Op_add_2exp>(xs, ex); break; case 1: run_2exp<N, Op_sub_2exp>(xs, ex); break; case 2: run_2exp<N, Op_mul_2exp>(xs, ex); break;
+      case 3: run_2exp<N, Op_div_2exp>(xs, ex); break; case 4: run_2exp<N, Op_smod_2exp>(xs, ex); break; default: run_2exp<N, Op_umod_2exp>(xs, ex); break; }
+  }
+  static void fused(bool sub, int n) {
+    std::vector<N> as = biased<N>(n), xs = biased<N>(n), ys = biased<N>(n);
+    if (sub) run_fused<N, Op_sub_mul>(as, xs, ys); else run_fused<N, Op_add_mul>(as, xs, ys);
+  }
+  static void compare(int n) { std::vector<N> xs = biased<N>(n), ys = biased<N>(n); if (hx::coin(30)) ys = xs; run_compare<N, N>(xs, ys); }
+  // a case of the common operation groups; returns false if the caller should do one of its own groups (conversions, cross comparisons)
+  static bool common() {
+    int g = hx::rnd(0, 99);
+    if (g < 40) { int w = hx::rnd(0, 7); hx::tr(std::string("binary op #") + std::to_string(w) + " <" + kname<N>() + "> 64x64 biased operands, all directions"); binary(w, 64, 64); return true; }
+    if (g < 50) { hx::tr("unary ops + specials <" + kname<N>() + "> 512 biased operands"); unary(512); return true; }
+    if (g < 62) { int w = hx::rnd(0, 5); hx::tr(std::string("2exp op #") + std::to_string(w) + " <" + kname<N>() + "> 128 operands x 24 exponents"); twoexp(w, 128, 24); return true; }
+    if (g < 74) { bool sb = hx::coin(); hx::tr(std::string(sb ? "sub_mul" : "add_mul") + " <" + kname<N>() + "> 16x16x16 biased operands"); fused(sb, 16); return true; }
+    if (g < 80) { hx::tr("comparisons <" + kname<N>() + "> 64x64"); compare(64); return true; }
+    return false;
+  }
+};
+template <typename To, typename From> inline void conv_case(int n) { hx::tr("conversions <" + kname<To>() + "> <- <" + kname<From>() + "> " + std::to_string(n) + " biased values"); run_convert<To, From>(biased<From>(n)); }
+template <typename A, typename B> inline void cmp_case(int n) { hx::tr("comparisons <" + kname<A>() + "> vs <" + kname<B>() + "> " + std::to_string(n) + "x" + std::to_string(n)); run_compare<A, B>(biased<A>(n), biased<B>(n)); }
+// conversions into To from every numeric family
+template <typename To> inline void conv_into(int n) {
+  switch (hx::rnd(0, 21)) {
+  case 0: conv_case<To, signed char>(n); break; case 1: conv_case<To, unsigned char>(n); break; case 2: conv_case<To, short>(n); break; case 3: conv_case<To, unsigned short>(n); break;
+  case 4: conv_case<To, int>(n); break; case 5: conv_case<To, unsigned int>(n); break; case 6: conv_case<To, long>(n); break; case 7: conv_case<To, unsigned long>(n); break;
+  case 8: conv_case<To, long long>(n); break; case 9: conv_case<To, unsigned long long>(n); break;
+  case 10: conv_case<To, Checked_Number<int, PX> >(n); break; case 11: conv_case<To, Checked_Number<unsigned long, PX> >(n); break; case 12: conv_case<To, Checked_Number<signed char, PX> >(n); break;
+  case 13: conv_case<To, float>(n); break; case 14: conv_case<To, double>(n); break; case 15: conv_case<To, long double>(n); break; case 16: conv_case<To, Checked_Number<double, PX> >(n); break; case 17: conv_case<To, Checked_Number<float, PW> >(n); break;
+  case 18: conv_case<To, Z>(n); break; case 19: conv_case<To, Q>(n); break; case 20: conv_case<To, Checked_Number<Z, PX> >(n); break; default: conv_case<To, Checked_Number<Q, PX> >(n); break; }
+}
+// comparisons of A with every numeric family
+template <typename A> inline void cmp_with(int n) {
+  switch (hx::rnd(0, 13)) {
+  case 0: cmp_case<A, signed char>(n); break; case 1: cmp_case<A, unsigned char>(n); break; case 2: cmp_case<A, short>(n); break; case 3: cmp_case<A, unsigned short>(n); break;
+  case 4: cmp_case<A, int>(n); break; case 5: cmp_case<A, unsigned int>(n); break; case 6: cmp_case<A, long>(n); break; case 7: cmp_case<A, unsigned long>(n); break;
+  case 8: cmp_case<A, float>(n); break; case 9: cmp_case<A, double>(n); break; case 10: cmp_case<A, long double>(n); break;
+  case 11: cmp_case<A, Z>(n); break; case 12: cmp_case<A, Q>(n); break; default: cmp_case<A, Checked_Number<double, PX> >(n); break; }
+}
+template <typename N> inline void full_case() { if (KindCase<N>::common()) return; if (hx::coin(70)) conv_into<N>(768); else cmp_with<N>(48); }
 
 // ---------------------------------------------------------------- throwing interface of bounded coefficients
 // Checked_Number<T, Bounded policy>: operators and *_assign functions either give the value the unbounded (GMP)
@@ -85,7 +215,10 @@ template <typename T> struct BoundedMon {
       one("abs_assign", ex_abs(ax), d1, [&]() { N r; abs_assign(r, x); return r; });
       one("operator++", ex_add(ax, XQ(Q(1))), d1, [&]() { N r(x); ++r; return r; }); one("operator--", ex_sub(ax, XQ(Q(1))), d1, [&]() { N r(x); --r; return r; });
       if (::sgn(ax.q) >= 0) { Ex e = ex_sqrt(ax); if (e.v.root) { e.v.root = false; Z z; mpz_sqrt(z.get_mpz_t(), ax.q.get_num_mpz_t()); e.v.q = Q(z); }   // GMP configuration: integer square root (floor)
-        one("sqrt_assign", e, d1, [&]() { N r; sqrt_assign(r, x); return r; }); }
+        bool skip = false;
+        if (std::is_signed<T>::value && sizeof(T) >= 4 && ax.q * 4 > lim<N>().hi) {   // isqrt_rem overflows a signed T for radicands >= 2^(bits-2): run in a child first
+          std::string why; if (!survives([&]() { N r; sqrt_assign(r, x); }, why)) { skip = true; hx::checked(); hx::violation(std::string("C11.ub.sqrt_assign.") + tname<N>() + ":radicand-top-quarter", "sanitizer report / crash inside sqrt_assign<" + kname<N>() + ">(" + show(ax) + "): " + why); } }
+        if (!skip) one("sqrt_assign", e, d1, [&]() { N r; sqrt_assign(r, x); return r; }); }
       done += 6;
       for (unsigned e = 0; e < 10; ++e) { Desc de = desce(ax, e);
         one("mul_2exp_assign", ex_mul_2exp(ax, e), de, [&]() { N r; mul_2exp_assign(r, x, e); return r; });
